@@ -657,7 +657,7 @@ class Gen:
                 ctx["vars"].append((x, F, True))
             elif k == "letif":
                 x = self.fresh()
-                tt = F if (r.chance(4, 5) or self.p.get("avoid_f20", True)) else T(F, F)
+                tt = F if (r.chance(4, 5) or self.p.get("avoid_f20", False)) else T(F, F)
                 stmts.append(("let", x, self.ifexpr(tt, d - 1, ctx)))
                 ctx["vars"].append((x, tt, tt == F))
             elif k == "lettup":
@@ -706,7 +706,7 @@ class Gen:
                 v = r.pick(mut)
                 stmts.append(("set", v[0], self.simple(d, ctx)))
         # tail
-        if d > 0 and r.chance(1, 6) and (t == F or not self.p.get("avoid_f20", True)):
+        if d > 0 and r.chance(1, 6) and (t == F or not self.p.get("avoid_f20", False)):
             tail = self.ifexpr(t, d - 1, ctx)
         elif t == F:
             tail = self.simple(d, ctx)
@@ -736,7 +736,7 @@ class Gen:
         actx = ctx if not self.p.get("avoid_f3", True) else dict(ctx, allow_state=False)
         actx = dict(actx, in_arm=True)
         then, els = self.block(t, d, actx), self.block(t, d, actx)
-        if self.p.get("avoid_f20", True) and t == F:
+        if self.p.get("avoid_f20", False) and t == F:
             then = self.no_bare_proj_tail(then)
         return Node("if", self.cond(max(d, 1), ctx), then, els)
 
@@ -790,9 +790,9 @@ class Gen:
                     defaults[q] = self.r.pick(NICE)
                 else:
                     break
-        if used_self[0] and ret == F:
-            # known finding F18 (WASM rejects a `self` function whose result is a bare tuple projection): keep the
-            # result of a `self` function an arithmetic expression
+        if used_self[0] and ret == F and self.p.get("avoid_f18", False):
+            # (former finding F18 — WASM rejected a `self` function whose result is a bare tuple projection — is repaired,
+            # /repo 3a045da: the result of a `self` function is no longer forced to be an arithmetic expression)
             body = self.arith_tail(body)
         fn = Fn(name, ps, [F] * nparams, ret, body, used_self[0], self.site > s0 or used_self[0])
         fn.defaults = defaults
